@@ -207,6 +207,13 @@ pub enum ChildEnd {
 pub fn in_child<F: FnOnce()>(_cpu_secs: u64, _wall_secs: u64, f: F) -> ChildEnd {
     // no fork under Miri: run inline (Miri reports UB itself and aborts the whole run)
     let r = panic::catch_unwind(AssertUnwindSafe(f));
+    if r.is_err() {
+        let msg = LAST_PANIC.with(|p| p.borrow().clone()).unwrap_or_default();
+        if msg.contains("shared area full") {
+            return ChildEnd::Exit(3); // same meaning as the forked child's exit code
+        }
+        eprintln!("[miri] inline case panicked: {msg}");
+    }
     ChildEnd::Exit(if r.is_ok() { 0 } else { 101 })
 }
 
